@@ -260,6 +260,7 @@ func superviseJob(job rJob, nq int, perQuery time.Duration) []rAnswer {
 		}()
 		current := -1
 		dead := false
+		stalled := false
 		timer := time.NewTimer(perQuery + 60*time.Second) // the first answer waits for the load
 	loop:
 		for {
@@ -285,6 +286,7 @@ func superviseJob(job rJob, nq int, perQuery time.Duration) []rAnswer {
 				}
 			case <-timer.C:
 				dead = true
+				stalled = true
 				break loop
 			}
 		}
@@ -293,6 +295,14 @@ func superviseJob(job rJob, nq int, perQuery time.Duration) []rAnswer {
 		pr.Close()
 		if current >= 0 {
 			answers[current] = rAnswer{I: current, Out: "diverge", Oracle: "ResultsOf did not return (unbounded recursion or no progress within the time limit)"}
+			if stalled && perQuery < 90*time.Second {
+				// a stall (not a crash) may be a loaded machine: ask again, alone, with a generous limit
+				alone := superviseJob(rJob{Sources: job.Sources, Queries: []rQuery{job.Queries[current]}}, 1, 90*time.Second)
+				if alone[0].Out != "diverge" && alone[0].Out != "not-run" {
+					alone[0].I = current
+					answers[current] = alone[0]
+				}
+			}
 			skip = current + 1
 			restarts++
 			continue
@@ -830,6 +840,7 @@ func (c *sweepCase) Nontrivial() bool  { return true }
 func superviseRepo(shard, shards int) []rAnswer {
 	var all []rAnswer
 	skip := 0
+	stalls := map[int]int{} // function index → how often a child stalled (did not crash) on it
 	for restarts := 0; restarts < 40; restarts++ {
 		self, _ := os.Executable()
 		cmd := exec.Command(self, "child", "c14")
@@ -862,6 +873,7 @@ func superviseRepo(shard, shards int) []rAnswer {
 		}()
 		var current *rAnswer
 		finished := false
+		stalled := false
 		timer := time.NewTimer(120 * time.Second)
 	loop:
 		for {
@@ -870,7 +882,11 @@ func superviseRepo(shard, shards int) []rAnswer {
 				if !ok {
 					break loop
 				}
-				timer.Reset(10 * time.Second)
+				if a.Start && stalls[a.I] > 0 {
+					timer.Reset(120 * time.Second) // second attempt at a function a child stalled on: generous limit
+				} else {
+					timer.Reset(10 * time.Second)
+				}
 				switch {
 				case a.I == -1:
 					finished = true
@@ -883,6 +899,7 @@ func superviseRepo(shard, shards int) []rAnswer {
 					skip = a.I
 				}
 			case <-timer.C:
+				stalled = true
 				break loop
 			}
 		}
@@ -891,6 +908,12 @@ func superviseRepo(shard, shards int) []rAnswer {
 		pr.Close()
 		if finished {
 			break
+		}
+		if current != nil && stalled && stalls[current.I] == 0 {
+			// a stall may be a loaded machine rather than a resolver that does not return: ask once more
+			stalls[current.I]++
+			skip = current.I - 1
+			continue
 		}
 		if current != nil {
 			all = append(all, rAnswer{I: current.I, Name: current.Name, Out: "diverge", Oracle: "ResultsOf did not return"})
